@@ -336,6 +336,8 @@ def main():
     ap.add_argument("--replay")
     args = ap.parse_args()
     prop = args.prop
+    if prop == "--warm-audit" or prop == "warm-audit":
+        return warm_audit()
     tier = args.tier if args.tier in ("quick", "thorough") else "quick"
     seed = int(os.environ.get("VERIF_SEED", "0") or 0)
     if prop not in PROPS:
@@ -343,8 +345,12 @@ def main():
         return 2
     cfg = PROPS[prop]
     if args.replay:
-        print(open(args.replay).read())
-        print("[replay] re-running the property's search and correspondence on the current tree:")
+        rec = json.load(open(args.replay))
+        print(json.dumps(rec, indent=1)[:6000])
+        seed = int(rec.get("seed", seed))
+        tier = rec.get("tier", tier)
+        print(f"[replay] re-running the check of {prop} with the recorded seed {seed} and tier {tier} on the current tree "
+              "(the search and the correspondence are deterministic in the seed, so a recorded failing input is revisited):")
     t0 = time.time()
     os.makedirs(EVID, exist_ok=True)
     evid_path = os.path.join(EVID, prop + ".json")
@@ -443,6 +449,21 @@ def main():
                    known_hits=sorted(printed_known))
     log(f"{prop} {'OK' if rc == 0 else 'FAIL'} in {time.time() - t0:.1f}s")
     return rc
+
+
+def warm_audit():
+    """compile every Props file once so that the Print Assumptions outputs are cached (used by setup.sh)"""
+    coq_makefile()
+    def one(p):
+        try:
+            t, a, pr = audit_props(p, PROPS[p])
+            return p, len(t), pr
+        except Exception as e:  # noqa
+            return p, 0, [str(e)]
+    with ThreadPoolExecutor(max_workers=NPROC) as ex:
+        for p, n, pr in ex.map(one, [p for p in PROPS if os.path.exists(os.path.join(COQ, "theories", "Props", p + ".v"))]):
+            print(f"[warm-audit] {p}: {n} theorems, {len(pr)} problems")
+    return 0
 
 
 def corr_base_built():
